@@ -33,10 +33,16 @@ type WALRotationObserver interface {
 // (log rotation), so that they keep being notified, and tells those that implement
 // WALRotationObserver about the new object.
 func (w *WAL) HandOverObservers(next *WAL) {
+	// Copy the set first: registering on the next WAL takes that WAL's observer lock and
+	// OnWALRotated runs observer code, neither belongs under this WAL's observer lock
 	w.observersMu.RLock()
-	defer w.observersMu.RUnlock()
-
+	observers := make(map[string]WALEntryObserver, len(w.observers))
 	for id, observer := range w.observers {
+		observers[id] = observer
+	}
+	w.observersMu.RUnlock()
+
+	for id, observer := range observers {
 		next.RegisterObserver(id, observer)
 		if r, ok := observer.(WALRotationObserver); ok {
 			r.OnWALRotated(next)
